@@ -77,9 +77,7 @@ func TempFile(dir, pattern string) (*os.File, error) {
 	if err := f.step("tempfile " + dir + " " + pattern); err != nil {
 		return nil, err
 	}
-	d := f.resolve(dir)
-	os.MkdirAll(d, 0o755)
-	return ioutil.TempFile(d, pattern)
+	return ioutil.TempFile(f.resolve(dir), pattern)
 }
 
 // Rename replaces os.Rename. Names returned by TempFile are already real paths.
@@ -94,9 +92,7 @@ func Rename(oldp, newp string) error {
 	if !filepath.IsAbs(oldp) || !hasPrefix(oldp, f.Root) {
 		oldp = f.resolve(oldp)
 	}
-	np := f.resolve(newp)
-	os.MkdirAll(filepath.Dir(np), 0o755)
-	return os.Rename(oldp, np)
+	return os.Rename(oldp, f.resolve(newp))
 }
 
 func hasPrefix(p, root string) bool {
@@ -113,9 +109,7 @@ func OpenFile(name string, flag int, perm os.FileMode) (*os.File, error) {
 	if err := f.step("open " + name); err != nil {
 		return nil, err
 	}
-	p := f.resolve(name)
-	os.MkdirAll(filepath.Dir(p), 0o755)
-	return os.OpenFile(p, flag, perm)
+	return os.OpenFile(f.resolve(name), flag, perm)
 }
 
 // Remove replaces os.Remove.
